@@ -45,6 +45,14 @@ def job_indices(n):
         for (op, nm, args, ok) in ((26, 'Return_Row', {'i': n}, False), (26, 'Return_Row', {'i': n - 1}, True), (27, 'Return_Column', {'j': n}, False), (28, 'Delete_Row', {'i': UM}, False), (29, 'Delete_Column', {'j': n + 1}, False), (29, 'Delete_Column', {'j': 0}, True),
                                    (25, 'Sub_Matrix', {'i': n, 'j': 0}, False), (25, 'Sub_Matrix', {'i': 0, 'j': n}, False), (25, 'Sub_Matrix', {'i': n - 1, 'j': n - 1}, True)):
             res += la_out('%s/%dx%d/%s' % (nm, n, n, args), la(op, A=A, **args), ok, dict({'op': op, 'rows': n, 'cols': n}, **args), 'C10/' + nm)
+        # non-square shapes: the row index is judged against the rows and the column index against the columns (every index between min and max of the two sizes separates them)
+        for (r, c) in ((n - 1, n + 1), (n + 1, n - 1)):
+            A2 = la_common.syms('a', r, c)
+            for i in sorted(set([0, r - 1, r, c - 1, c, max(r, c), UM])):
+                res += la_out('Return_Row/%dx%d/i%s' % (r, c, i), la(26, A=A2, i=i), i < r, {'op': 26, 'rows': r, 'cols': c, 'i': i}, 'C10/Return_Row')
+                res += la_out('Delete_Row/%dx%d/i%s' % (r, c, i), la(28, A=A2, i=i), i < r, {'op': 28, 'rows': r, 'cols': c, 'i': i}, 'C10/Delete_Row')
+                res += la_out('Return_Column/%dx%d/j%s' % (r, c, i), la(27, A=A2, j=i), i < c, {'op': 27, 'rows': r, 'cols': c, 'j': i}, 'C10/Return_Column')
+                res += la_out('Delete_Column/%dx%d/j%s' % (r, c, i), la(29, A=A2, j=i), i < c, {'op': 29, 'rows': r, 'cols': c, 'j': i}, 'C10/Delete_Column')
     return res
 
 def job_shapes(r1, c1, r2, c2):
@@ -105,6 +113,24 @@ def job_interp_ctor():
     res += outcome('interpolation2d/2x3-too-short', ctor2d(2, 3, 0), False, {'case': '2d', 'nx': 2, 'ny': 3, 'ragged': 0}, 'C10/interpolation2d/too-short')
     return res
 
+def job_interp_units(N):
+    """table constructed with a unit for the abscissae (x_dim > 0, symbolic): a query is accepted exactly within the scaled domain plus one percent of the scaled edge intervals"""
+    res = []; mod = interp_common.GMOD['m']; X = [z3.Real('x%d' % i) for i in range(N)]; Y = [z3.Real('y%d' % i) for i in range(N)]; XD, P = z3.Real('x_dim'), z3.Real('probe')
+    it = Interp(mod, limits=Limits(max_paths=600, feas_ms=2000)); st = it.new_state(); st.pc += [X[i] < X[i + 1] for i in range(N - 1)] + [XD > 0]
+    ps = it.execute('@verif_c10_ctor_units', [N, st.put_doubles(X), st.put_doubles(Y), XD, -1.0, P], st)
+    lo, hi = X[0] * XD, X[N - 1] * XD; tl, tr = RV(1e-2) * (X[1] - X[0]) * XD, RV(1e-2) * (X[N - 1] - X[N - 2]) * XD
+    mv = {'case': 'units', 'x': X, 'y': Y, 'x_dim': XD, 'probe': P, 'N': N}; nret = nexit = 0
+    for pi, p in enumerate(ps):
+        tag = 'interpolation-units/N%d[%d]' % (N, pi)
+        if p.end is None:
+            nret += 1; res.append(prove(tag + '/accepted-only-within-one-percent', p.st.pc, z3.And(P >= lo - tl, P <= hi + tr), 30000, mv, key='C10/interpolation-units/rejects', tactic='nra'))
+        elif p.end.kind == 'exit':
+            nexit += 1; res.append(prove(tag + '/exits-only-beyond-one-percent', p.st.pc, z3.Or(P <= lo - tl, P >= hi + tr), 30000, mv, key='C10/interpolation-units/valid-returns', tactic='nra'))
+            if not any(ev[0] == 'diag' for ev in p.st.events): res.append(ob(tag + '/diagnostic', 'candidate', key='C10/interpolation-units/diagnostic', model=None))
+        elif p.end.kind != 'cutoff': res.append(prove(tag + '/no-' + p.end.kind, p.st.pc, z3.BoolVal(False), 20000, mv, key='C10/interpolation-units/' + p.end.kind, detail=str(p.end)))
+    res.append(ob('interpolation-units/N%d/coverage' % N, 'discharged' if nret and nexit else 'broken', key='C10/coverage', detail='%d returning, %d exiting paths' % (nret, nexit)))
+    return res
+
 def job_borrowed(which):
     """guard obligations owned by other properties, re-run under C10 (same code, same keys)"""
     if which == 'C02-entry': return [o for o in C02.job_entry('lt', 1) + C02.job_entry('gt', 1) if not str(o.get('key') or '').startswith('C02/accuracy')]      # the accuracy clause belongs to C02 only
@@ -135,7 +161,7 @@ def jobs(ctx):
     for n1 in range(1, 5):
         for n2 in range(1, 5):
             if n1 <= 3 or n2 <= 3: J.append((job_vectors, (n1, n2)))
-    J.append((job_interp_ctor, ()))
+    J.append((job_interp_ctor, ())); J.append((job_interp_units, (3,)))
     for w in ('C02-entry', 'C06-guards', 'C07-guards', 'C12-length', 'C13-method', 'C17-guards', 'C19-lists', 'C09-domain'): J.append((job_borrowed, (w,)))
     for h in bp.harnesses('C10.c', ctx.tier) + bp.harnesses('C02.c', ctx.tier): J.append((job_bp, (h,)))
     return J
@@ -163,6 +189,13 @@ def replay(ctx, o):
             N = m['N']; xs = [float(i) for i in range(N)]; xs[m['k'] + 1] = xs[m['k']]; r = call(0, xs, N, [1.0] * N, N, xs[0])
         elif c == 'mismatch': r = call(0, [float(i) for i in range(m['nx'])], m['nx'], [float(i) for i in range(m['ny'])], m['ny'], 0.0)
         elif c == 'table': r = call(1, [float(i) for i in range(m['rows'] * m['cols'])], m['rows'], None, m['cols'], 0.5)
+        elif c == 'units':
+            xs = [q2f(q) for q in m['x']]; ys = [q2f(q) for q in m['y']]; xd = q2f(m['x_dim']); pr = q2f(m['probe']); N = m['N']
+            r = nat.call(so, 'verif_c10_ctor_units', [('u32', N), ('dbl[]', xs), ('dbl[]', ys), xd, -1.0, pr])
+            lo, hi = xs[0] * xd, xs[-1] * xd; tl, tr = 1e-2 * (xs[1] - xs[0]) * xd, 1e-2 * (xs[-1] - xs[-2]) * xd
+            inside = lo - tl * (1 - 1e-9) <= pr <= hi + tr * (1 - 1e-9); outside = pr < lo - tl * (1 + 1e-9) or pr > hi + tr * (1 + 1e-9)
+            desc = 'native Interpolation(x=%s, x_dim=%r)(%r): %s; scaled domain [%r,%r], one percent of the edge intervals %r / %r' % (xs, xd, pr, r.get('ret', r['status']), lo, hi, tl, tr)
+            return (r['status'] == 'ok' and outside) or (r['status'] == 'exit' and inside), desc
         elif c == '2d':
             r = nat.call(so, 'verif_c10_ctor2d', [('u32', m['nx']), ('u32', m['ny']), ('dbl[]', [float(i) for i in range(m['nx'])]), ('dbl[]', [float(i) for i in range(m['ny'])]), ('dbl[]', [float(i) for i in range(m['nx'] * m['ny'])]), ('i32', m['ragged']), 0.5, 0.5])
         else: return False, 'no replay rule'
@@ -183,6 +216,6 @@ def replay(ctx, o):
         else: r = la_common.native_la(ctx, op, A, [[2.0 + i * j for j in range(c2)] for i in range(r2)])
     elif 'n1' in m: r = la_common.native_la(ctx, op, [1.0] * m['n1'], [2.0] * m['n2'], vecA=True, vecB=True)
     else:
-        n = m['rows']; r = la_common.native_la(ctx, op, [[1.0 + i * n + j + (i == j) for j in range(n)] for i in range(n)], i=m.get('i', 0), j=m.get('j', 0))
+        n = m['rows']; nc = m.get('cols', n); r = la_common.native_la(ctx, op, [[1.0 + i * nc + j + (i == j) for j in range(nc)] for i in range(n)], i=m.get('i', 0), j=m.get('j', 0))
     if valid: return r['status'] != 'ok', 'native call on a meaningful request: %s' % r['status']
     return r['status'] != 'exit', 'native call on a meaningless request (%s): %s' % ({k: v for k, v in m.items() if k != 'failed'}, r['status'] if r['status'] != 'ok' else 'returned %s' % r.get('out', [])[:3])
